@@ -28,28 +28,29 @@ type Interp struct {
 	ConcretizeLimit int
 
 	// per-path state
-	globals   map[*ssa.Global]*Value
-	pkgInit   map[*ssa.Package]int // 0 none, 1 running, 2 done, 3 partial
-	steps     int
-	depth     int
-	prefix    []int
-	taken     []int
-	pc        []*smt.Term
-	pcSet     map[*smt.Term]bool
-	pcVal     map[*smt.Term]*smt.Term
-	pcFalse   bool
-	forks     [][]int
-	inputs    []inputVar
-	nameCount map[string]int
-	inStub    map[string]bool
-	findings  []Finding
-	asserts   int
-	symAssert int
-	reached   map[string]bool
-	observed  []string
-	labels    map[string]Value // intrinsic side tables (e.g. time labels)
-	frozen    map[*Value]bool
-	frozenMap map[*Map]bool
+	globals        map[*ssa.Global]*Value
+	pkgInit        map[*ssa.Package]int // 0 none, 1 running, 2 done, 3 partial
+	steps          int
+	depth          int
+	prefix         []int
+	taken          []int
+	pc             []*smt.Term
+	pcSet          map[*smt.Term]bool
+	pcVal          map[*smt.Term]*smt.Term
+	pcFalse        bool
+	forks          [][]int
+	inputs         []inputVar
+	nameCount      map[string]int
+	inStub         map[string]bool
+	findings       []Finding
+	asserts        int
+	symAssert      int
+	reached        map[string]bool
+	observed       []string
+	labels         map[string]Value // intrinsic side tables (e.g. time labels)
+	frozen         map[*Value]bool
+	frozenMap      map[*Map]bool
+	lastPanicStack string
 
 	// accumulated over all paths of this worker
 	stats     *Stats
@@ -521,6 +522,7 @@ func (in *Interp) RunPath(entry *ssa.Function, prefix []int) (res PathResult) {
 	in.labels = map[string]Value{}
 	in.frozen = nil
 	in.frozenMap = nil
+	in.lastPanicStack = ""
 	if in.ctx.NumTerms() > 400000 {
 		in.ctx = smt.NewCtx()
 	}
@@ -560,7 +562,7 @@ func (in *Interp) RunPath(entry *ssa.Function, prefix []int) (res PathResult) {
 			} else {
 				msg = p.(runtimeError).Error()
 			}
-			f := Finding{Kind: "panic", Msg: "uncaught panic: " + msg, Decisions: append([]int{}, in.taken...), Stack: stack}
+			f := Finding{Kind: "panic", Msg: "uncaught panic: " + msg, Decisions: append([]int{}, in.taken...), Stack: in.lastPanicStack}
 			rr, m, err := in.solver.Check(in.pc, in.inputTerms())
 			if err == nil && rr == smt.Sat {
 				f.Model = in.buildModel(m)
